@@ -497,7 +497,7 @@ func c38CollectX(fn *ssa.Function, subst map[int][]string, depth int, conds, cal
 			}
 			sub := map[int][]string{}
 			for i, a := range x.Common().Args {
-				l := c38Subst(core.OriginLeaves(a), subst)
+				l := c38Subst(core.OriginLeavesVia(a), subst)
 				sub[i] = strings.Fields(strings.Trim(l, "{}"))
 			}
 			c38CollectX(sc, sub, depth+1, conds, calls, stop)
